@@ -208,7 +208,7 @@ def run_case(case):
     else:
         nst = case["steps"]
         _, mag = ref.rate_law(desc, state, None)
-        maxrate = max([m / (abs(s_) + 1.0) for m, s_ in zip(mag, state)] + [1e-3])
+        maxrate = ref.max_rate(desc, state)
         dt = r.choice([0.03, 0.1, 0.3]) / maxrate
         if fixed_dt is not None:
             dt = fixed_dt
